@@ -98,6 +98,10 @@ pub fn check(bytes: &[u8], _ctx: &Ctx) -> Verdict {
         Err(_) => return Verdict::fail("C19/panic", format!("distance panicked for the same game and p = {}", p_exp)),
     };
     let d_ba = sb.distance(&sa, p_exp);
+    crate::runner::note(|| format!("game {}", built.tree.brief()));
+    crate::runner::note(|| format!("profile a {:?}", pa));
+    crate::runner::note(|| format!("profile b {:?}", pb));
+    crate::runner::note(|| format!("p = {}: distance(a,b) = {:?}, distance(b,a) = {:?}", p_exp, d_ab, d_ba));
     let mut disjoint = false;
     let mut no_infosets = false;
     for p in 0..2 {
@@ -159,7 +163,7 @@ pub fn check(bytes: &[u8], _ctx: &Ctx) -> Verdict {
         labels.push("player-without-infosets");
     }
     Verdict::Pass {
-        nontrivial: if disjoint || no_infosets {
+        nontrivial: if (disjoint || no_infosets) && info.num_multi() >= 1 {
             Some(hash_bytes(format!("{}|{:?}|{:?}|{}", built.tree.brief(), pa, pb, p_exp).as_bytes()))
         } else {
             None
@@ -169,10 +173,7 @@ pub fn check(bytes: &[u8], _ctx: &Ctx) -> Verdict {
 }
 
 pub fn describe(bytes: &[u8]) -> Value {
-    let (mut s, mut gs) = crate::stream::split(bytes, 128);
-    let built = gen_built(&mut gs, &GenCfg::small());
-    let pa = gen_profile(&mut s, &built.info);
-    json!({"family": built.family, "game": built.tree.brief(), "first_profile": crate::tree::profile_json(&pa), "note": "second profile and exponent follow in the stream"})
+    crate::runner::describe_by_running(check, bytes)
 }
 
 pub fn prop() -> Prop {
@@ -180,7 +181,7 @@ pub fn prop() -> Prop {
         id: "C19",
         check,
         describe,
-        rule: "small generated games (including players without multi-action infosets) x pairs of profiles (identical; differing in one infoset by 1e-12 or arbitrarily; independent, incl. pure vs pure with disjoint supports) x p in {1e-3, 0.5, 1, 2, 10, 1e3, random}; oracle: each component in [0,1] and not NaN, 0 for coinciding profiles, > 0 when some infoset differs by > 1e-6 (p <= 10), bitwise symmetric, panics exactly for p <= 0 and for another Game object. Non-trivial = a disjoint-support infoset or a player without infosets; distinct by (tree, profiles, p).",
+        rule: "small generated games (including players without multi-action infosets) x pairs of profiles (identical; differing in one infoset by 1e-12 or arbitrarily; independent, incl. pure vs pure with disjoint supports) x p in {1e-3, 0.5, 1, 2, 10, 1e3, random}; oracle: each component in [0,1] and not NaN, 0 for coinciding profiles, > 0 when some infoset differs by > 1e-6 (p <= 10), bitwise symmetric, panics exactly for p <= 0 and for another Game object. Non-trivial = the game has a multi-action infoset and some infoset has disjoint supports or one player has no infoset; distinct by (tree, profiles, p).",
         max_len: 700,
         cases_quick: 2_000_000,
         cases_thorough: 25_000_000,
